@@ -40,6 +40,7 @@ type GenCfg struct {
 	NJVars                                                                                     int    // string variables that hold node titles
 	Probes                                                                                     bool   // pn/pb/ps/pn2 host functions in expressions
 	Visited                                                                                    bool   // visited()/visited_count() in expressions
+	HostFnWrites                                                                               bool   // <<call pw("n0", e)>>: a host function that writes a variable while the script runs
 	BigRoundsPct                                                                               int    // share of hub worlds whose loop runs 126-300 rounds
 	Random                                                                                     bool   // dice/random/random_range (C09 only)
 	ExprDepth                                                                                  int
@@ -571,6 +572,10 @@ func (g *gen) varsOf(ty byte) []string {
 }
 
 func (g *gen) callStmt() *Stmt {
+	if g.cfg.HostFnWrites && len(g.vars[0]) > 0 && g.tp.Chance(40, "callwrites") {
+		// a host function that writes a variable through the storer in the middle of a run of statements
+		return &Stmt{K: sCall, E: &Expr{K: eCall, S: "pw", A: []*Expr{{K: eStr, S: g.vars[0][g.tp.Int(0, len(g.vars[0])-1, "pwvar")]}, g.expr('n', 1)}}}
+	}
 	switch g.tp.Int(0, 3, "callkind") {
 	case 0:
 		return &Stmt{K: sCall, E: &Expr{K: eCall, S: "pv"}}
